@@ -45,8 +45,11 @@ def check_eq_ord(chk, prog, cfg):
         if short in MODEL and a.startswith("scale_info::ty"):
             names[a] = short
     names["scale_info::interner::UntrackedSymbol"] = "UntrackedSymbol"
+    # the registry itself is compared for equality only (it has no order)
+    eq_only = {"scale_info::portable::PortableRegistry": "PortableRegistry", "scale_info::portable::PortableType": "PortableType"}
+    names.update({k: v for k, v in eq_only.items() if k in prog.adts})
     for adt, short in sorted(names.items()):
-        for tr in ("core::cmp::PartialEq", "core::cmp::Eq", "core::cmp::PartialOrd", "core::cmp::Ord"):
+        for tr in (("core::cmp::PartialEq", "core::cmp::Eq") if adt in eq_only else ("core::cmp::PartialEq", "core::cmp::Eq", "core::cmp::PartialOrd", "core::cmp::Ord")):
             imps = prog.impl_for(tr, lambda t: t["k"] == "adt" and t["d"] == adt)
             ok = len(imps) == 1 and imps[0]["automatically_derived"] and _derive_builtin(imps[0])
             if not ok and len(imps) == 1 and prog.adts[adt]["kind"] == "struct":
